@@ -283,3 +283,7 @@ def run(ctx, report: Report) -> None:
         r4.violation('css_parser.CSSParser.parse_pseudo_class_custom memo', cmod.where(cfn),
                      'the compiled custom selector is not written back to self.custom (or the isinstance guard is gone): '
                      'every reference recompiles the definition, which is exponential for chained aliases')
+
+    from .sem import freeze_cost_table
+    freeze_cost_table(ctx, r4)
+
